@@ -29,6 +29,10 @@ RULE = (
     'outstanding steps are completed. Non-trivial: a trigger or submission '
     'is fired while a background step is outstanding. Distinct = SHA-1 of '
     'case JSON.'
+    " Further events: status (a busy worker's status message through the re"
+    'al farm.Hand; proceed only at rest in running and for the same revisio'
+    'n) and reset (fe.api.cmd_reset; refused without effect unless at rest '
+    'in running). '
 )
 ASSUMPTIONS = [
     'callbacks of background steps are serialised on the harness thread (in '
